@@ -221,8 +221,28 @@ func (t *treeRun) childrenOf(dir string) []*rawNode {
 	return n.Children
 }
 
+// equalsParent reports a path with two consecutive components of the same name
+// (fat-name-equals-parent: the code resolves such a path to the parent directory).
+func equalsParent(p string) bool {
+	c := splitP(p)
+	for i := 1; i < len(c); i++ {
+		if sameName(c[i-1], c[i]) {
+			return true
+		}
+	}
+	return false
+}
+
 // randTok draws one call that triggers no listed finding; "" = draw again.
 func (t *treeRun) randTok(r *hx.Rng, bpc int, tight bool) string {
+	tok := t.randTok0(r, bpc, tight)
+	if f := strings.Split(tok, ":"); len(f) > 1 && equalsParent(f[1]) {
+		return ""
+	}
+	return tok
+}
+
+func (t *treeRun) randTok0(r *hx.Rng, bpc int, tight bool) string {
 	dirs := t.dirsOf()
 	dir := hx.Pick(r, dirs)
 	if r.Chance(50) && len(dirs) > 1 {
@@ -320,6 +340,11 @@ func (t *treeRun) randTok(r *hx.Rng, bpc int, tight bool) string {
 		n := pickName(pool)
 		if n == "" || t.isDir(joinP(dir, n)) {
 			return "" // onto a directory: fat-rename-over-directory
+		}
+		for _, ch := range t.childrenOf(joinP(dir, o)) {
+			if sameName(ch.Name, n) {
+				return "" // a directory would get the name of one of its children: fat-name-equals-parent below it
+			}
 		}
 		if r.Chance(10) {
 			n = strings.ToUpper(o) // the same name in another spelling: refused by the code
@@ -484,9 +509,11 @@ func (e *eng) corrTree(r *hx.Rng) {
 			final := treeListing(t.rep, v.dev)
 			c.Case(id, "fat.tree", kv("kind", cfg.Kind), kv("max", max), kv("lim", lim), kv("start", cfg.Start), kv("datastart", dataStart),
 				kv("bpc", bpc), kv("rootcap", rootCap), kv("rootbase", rootBase), kv("rootoff", rootDirOffset+cfg.Start),
-				"rootchain="+rootChain, "entries="+entries0, "ops="+strings.Join(t.ops, ","))
+				"rootchain="+rootChain, "entries="+entries0, "ops="+strings.Join(t.ops, ","), "hyp=1")
+			// hyp: the geometry and the fresh volume meet the hypotheses of the tree theorems (TGeomOk,
+			// 64 <= bytes per cluster, TInv and TFit of the initial state), evaluated by the Lean driver
 			c.Impl(id, "res="+strings.Join(t.res, ","), "used="+strings.Join(t.used, ","), "steps="+strings.Join(t.steps, ","),
-				"final="+final, "table="+tableNonzero(tb))
+				"final="+final, "table="+tableNonzero(tb), "hyp=111")
 			c.Stat("corr.tree." + kind)
 			for _, cls := range t.res {
 				c.Stat("corr.tree.res." + cls)
